@@ -597,7 +597,9 @@ Definition vparams_of (st : hg) (x : Z) : vparams :=
        (fun j y w => match get_peerset st (j - 1) with
                      | Some pps => strongly_see st y w pps
                      | None => None end)
-       (fun j => match get_peerset st j with Some ps => Some (super_majority ps) | None => None end)
+       (* the decision quorum of voting round j: the super-majority of the VOTERS' set, round j-1
+          (jPrevPeerSet.SuperMajority(); before fix 05eda0b it was the set of round j) *)
+       (fun j => match get_peerset st (j - 1) with Some ps => Some (super_majority ps) | None => None end)
        (coin_of st).
 
 Definition round_witnesses (st : hg) (j : Z) : option (list Z) :=
